@@ -316,7 +316,7 @@ impl Property for C01 {
         vec![("sequential", 2), ("background-snapshot", 1)]
     }
     fn budget(&self) -> (u64, u64) {
-        (40_000, 1_500_000)
+        (200_000, 5_000_000)
     }
     fn rule(&self) -> &'static str {
         "1-30 commands of {set,set-safe(cur-1|cur|cur+1),get,get-safe,remove,increment,keys(8 patterns, admin/non-admin),snapshot false|true} over 2-5 keys (incl. $sys and $$sec) and a value alphabet with empty, multi-word, numeric-looking, UTF-8 and >250-byte values, against a plain map; the background snapshot (real declutter timer) runs either between commands or released to race with the following commands. Non-trivial: at least one snapshot ran and a later command touched a key. distinct = distinct (program, task-switch sequence)."
